@@ -359,6 +359,36 @@ func c17(args []string) int {
 	}
 	ev.Set("registered_checkers", len(infos))
 	ev.Set("hand_written", len(hand))
+	// the same listing in a process that links the analysis front-end before the rule groups are registered
+	if abin, err := harness.BuildHarnessBin("./cmd/anrpc"); err != nil {
+		ev.Cap("listing in an analyzer-linked process skipped: " + firstLine(err.Error()))
+	} else if rpc, err := harness.StartRPC(abin, harness.WorkDir(), nil); err != nil {
+		fmt.Fprintln(os.Stderr, err)
+		os.Exit(2)
+	} else {
+		var resp struct {
+			Registered []string `json:"registered"`
+			ParseErr   string   `json:"parse_err"`
+		}
+		if err := rpc.Call(map[string]interface{}{"op": "listed"}, &resp); err != nil || resp.ParseErr != "" {
+			fmt.Fprintln(os.Stderr, "c17: listed rpc:", err, resp.ParseErr)
+			os.Exit(2)
+		}
+		rpc.Close()
+		listed := map[string]bool{}
+		for _, n := range resp.Registered {
+			listed[n] = true
+		}
+		for _, in := range infos {
+			if strings.HasPrefix(in.Name, "vprobe") || strings.HasPrefix(in.Name, "vsched") {
+				continue
+			}
+			ev.Eval(1)
+			if !listed[in.Name] {
+				viol("registry|not-listed-when-analyzer-linked|"+map[bool]string{true: "rule-group", false: "hand-written"}[in.EmbeddedRuleguard], "a registered checker is missing from GetCheckersInfo() in a process that links the analysis front-end and then registers the rule groups", in.Name, nil)
+			}
+		}
+	}
 
 	// ---- leg 3: documentation
 	c17docs(ev, infos, viol)
@@ -542,4 +572,11 @@ func c17docs(ev *evidence.Run, infos []*linter.CheckerInfo, viol func(key, what,
 			}
 		}
 	}
+}
+
+func firstLine(s string) string {
+	if i := strings.Index(s, "\n"); i >= 0 {
+		return s[:i]
+	}
+	return s
 }
